@@ -296,6 +296,7 @@ fn recorded(val: &DynVal) -> Value {
 
 fn c01_case(case: &Value) -> Result<Value, String> {
     let mut rng = Rng::new(case["seed"].as_u64().unwrap_or(1));
+    crate::dynval::set_key_style(case["seed"].as_u64().unwrap_or(0) / 3);
     let (val, ty, path): (DynVal, DynType, Vec<String>) = if case["val"].is_null() {
         let path: Vec<String> = case["path"].as_array().unwrap().iter().map(|s| s.as_str().unwrap().to_string()).collect();
         let (v, t) = build(&path, case["leaf"].as_str().unwrap(), &mut rng);
@@ -379,6 +380,7 @@ fn inject(v: &mut Value, path: &[String], names: &[String], payload: &Value) -> 
 fn c05_case(case: &Value) -> Result<Value, String> {
     use conjure_serde::{json as cj, smile as cs};
     let mut rng = Rng::new(case["seed"].as_u64().unwrap_or(1));
+    crate::dynval::set_key_style(case["seed"].as_u64().unwrap_or(0) / 3);
     let path: Vec<String> = case["path"].as_array().unwrap().iter().map(|s| s.as_str().unwrap().to_string()).collect();
     let names: Vec<String> = case["names"].as_array().unwrap().iter().map(|s| s.as_str().unwrap().to_string()).collect();
     let (val, ty) = build(&path, case["shape"].as_str().unwrap_or("struct"), &mut rng);
